@@ -12,7 +12,7 @@ use flsrc::pieces::Piece;
 use serde_json::{json, Value};
 use std::sync::Mutex;
 
-pub const RULE: &str = "exhaustive: for each of 64 squares every subset of the full rook rays (2^14 each) and of the full bishop rays (2^7..2^13), each evaluated bare and OR-ed with seed-derived noise off the rays; queen = each enumerated rook subset paired with a derived bishop-ray subset (and vice versa) plus generated random 64-bit occupancies (sparse/uniform/dense); knight and king for all 64 squares; between(a,b,true/false) for all 4032 ordered pairs a!=b. Oracle: coordinate ray walk (stop after first blocker), offset patterns, and line geometry (interior exact, nothing off the segment, end squares by one uniform convention; whole line edge to edge). Non-trivial = at least one blocker on a ray of the square / an aligned pair; distinct by (piece, square, masked occupancy).";
+pub const RULE: &str = "exhaustive: for each of 64 squares every subset of the full rook rays (2^14 each) and of the full bishop rays (2^7..2^13), each evaluated bare and OR-ed with seed-derived noise off the rays; queen = each enumerated rook subset paired with a derived bishop-ray subset (and vice versa) plus generated random 64-bit occupancies (sparse/uniform/dense); knight and king for all 64 squares; between(a,b,true/false) for all 4032 ordered pairs a!=b. Part 'sequences' (lookups in ORDER on one table): position sweeps — with one full-board occupancy every ordered pair (kind1 on square1, then kind2 on square2) over rook/bishop/queen and 64 x 64 squares, 48 occupancies — and revisits — a lookup, N lookups from other squares with ever new occupancies (N around the powers of two up to 2^17), then the same kind from the same square with other blockers. Oracle: coordinate ray walk (stop after first blocker), offset patterns, and line geometry (interior exact, nothing off the segment, end squares by one uniform convention; whole line edge to edge). Non-trivial = at least one blocker on a ray of the square / an aligned pair; distinct by (piece, square, masked occupancy).";
 
 const ROOK_D: [(i32, i32); 4] = [(1, 0), (0, 1), (-1, 0), (0, -1)];
 const BISHOP_D: [(i32, i32); 4] = [(1, 1), (-1, 1), (-1, -1), (1, -1)];
@@ -264,6 +264,94 @@ fn part_random_queen(bytes: &[u8], stats: &mut Stats) -> Verdict {
     T.with(|t| check_slider(t, piece, sqr, occ))
 }
 
+fn mixk(x: u64) -> u64 {
+    let mut z = x.wrapping_add(0x9e37_79b9_7f4a_7c15);
+    z = (z ^ (z >> 30)).wrapping_mul(0xbf58_476d_1ce4_e5b9);
+    z = (z ^ (z >> 27)).wrapping_mul(0x94d0_49bb_1331_11eb);
+    z ^ (z >> 31)
+}
+
+/// Part 'sequences' — lookups in ORDER on one table (the enumeration above asks one square at a
+/// time; a table that remembers its last answers is only exposed by what is asked next):
+///  (a) position sweeps: with ONE full-board occupancy, as move generation does it, every ordered
+///      pair (kind1 on square1, then kind2 on square2) over rook/bishop/queen and all 64 x 64 squares;
+///  (b) revisits: a lookup, then N lookups from other squares with ever new occupancies, then the
+///      same kind from the same square with OTHER blockers — N around the powers of two up to 2^17
+///      (255, 256, 257, 65534, 65535, 65536, 131070, ...), where a small counter or generation
+///      number comes round again.
+fn sequences_item(item: &(u8, u64), stats: &mut Stats) -> Verdict {
+    let (mode, x) = *item;
+    let t = LookupTable::init();
+    let kinds = [Piece::Rook, Piece::Bishop, Piece::Queen];
+    if mode == 0 {
+        // (a): occupancy x of a chosen density; all ordered pairs of (kind, square)
+        let occ = match x % 3 {
+            0 => mixk(x) & mixk(x + 1) & mixk(x + 2),
+            1 => mixk(x),
+            _ => mixk(x) | mixk(x + 1),
+        } | if x % 5 == 0 { 0xff00_0000_0000_00ff } else { 0 };
+        for k1 in kinds {
+            for k2 in kinds {
+                for s1 in 0..64u8 {
+                    for s2 in 0..64u8 {
+                        check_slider(&t, k1, s1, occ).map_err(|mut f| {
+                            f.detail["asked_in_a_sequence_on_one_table"] = json!(true);
+                            f
+                        })?;
+                        check_slider(&t, k2, s2, occ).map_err(|mut f| {
+                            f.detail["asked_right_after"] = json!({"piece": piece_name(k1), "square": refchess::sq_name(s1), "same_occupancy": true});
+                            f.detail["replay"] = json!({"sequence": [[piece_name(k1), s1, format!("{:016x}", occ)], [piece_name(k2), s2, format!("{:016x}", occ)]]});
+                            f
+                        })?;
+                    }
+                }
+            }
+        }
+        stats.evals(2 * 9 * 4096);
+        stats.class("position_sweeps_(one_occupancy,_all_ordered_pairs_of_lookups)");
+        stats.nontrivial(&("sweep", occ));
+    } else {
+        // (b): revisit after n fillers
+        let n = x;
+        for k in [Piece::Rook, Piece::Bishop] {
+            for s in 0..64u8 {
+                let occ_a = mixk(n ^ (s as u64) << 8 ^ 1);
+                let occ_b = mixk(n ^ (s as u64) << 8 ^ 2) | occ_a.rotate_left(9);
+                check_slider(&t, k, s, occ_a)?;
+                for i in 0..n {
+                    let fs = ((s as u64 + 1 + i % 63) % 64) as u8;
+                    let focc = mixk(i ^ n << 20 ^ (s as u64) << 40);
+                    let got = t.sliding_moves(fs, focc, k);
+                    if i % 4096 == 0 {
+                        let want = if k == Piece::Rook { ref_slider(fs, focc, &ROOK_D) } else { ref_slider(fs, focc, &BISHOP_D) };
+                        if got != want {
+                            return Err(Failure::new("wrong-attack-set", json!({"piece": piece_name(k), "square": refchess::sq_name(fs), "square_index": fs, "occupancy": format!("{:016x}", focc), "engine": format!("{:016x}", got), "reference": format!("{:016x}", want), "in_a_sequence_of_lookups": i})));
+                        }
+                    }
+                }
+                check_slider(&t, k, s, occ_b).map_err(|mut f| {
+                    f.detail["asked_again_after_lookups_from_other_squares"] = json!(n);
+                    f.detail["first_occupancy"] = json!(format!("{:016x}", occ_a));
+                    f.detail["replay"] = json!({"revisit": {"piece": piece_name(k), "square": s, "fillers": n}});
+                    f
+                })?;
+            }
+        }
+        stats.evals(2 * 64 * (n + 2));
+        stats.class("revisits_after_n_lookups_from_other_squares");
+        stats.nontrivial(&("revisit", n));
+    }
+    Ok(())
+}
+
+fn sequences_items(tier: Tier) -> Vec<(u8, u64)> {
+    let mut v: Vec<(u8, u64)> = (0..tier.pick(48u64, 600u64)).map(|i| (0u8, i)).collect();
+    for n in [0u64, 1, 2, 3, 7, 8, 15, 16, 17, 127, 128, 255, 256, 257, 511, 512, 1023, 1024, 4095, 4096, 32767, 32768, 65534, 65535, 65536, 65537, 131069, 131070, 131071, 131072] {
+        v.push((1, n));
+    }
+    v
+}
+
 pub fn run(tier: Tier, seed: u64, known: &Known) -> PropRun {
     let mut run = PropRun::new("exploration", RULE);
     run.exhaustive = true;
@@ -318,6 +406,15 @@ pub fn run(tier: Tier, seed: u64, known: &Known) -> PropRun {
             return run;
         }
     }
+    {
+        let items = sequences_items(tier);
+        let (st, fl) = crate::runner::run_enumerated("sequences", &items, threads(), seed, known, |it, st| sequences_item(it, st));
+        run.stats.merge(st);
+        if fl.is_some() {
+            run.failure = fl;
+            return run;
+        }
+    }
     let part = Part { name: "random", cases: tier.pick(2_000_000, 50_000_000), min_len: 26, max_len: 26, max_shrink: 2000, threads: threads() };
     let (st, fl) = run_part(&part, seed, known, part_random_queen);
     run.stats.merge(st);
@@ -326,6 +423,21 @@ pub fn run(tier: Tier, seed: u64, known: &Known) -> PropRun {
 }
 
 pub fn replay(part: &str, bytes: &[u8], case: &Value, stats: &mut Stats) -> Verdict {
+    if let Some(r) = case.get("replay") {
+        if let Some(sq) = r.get("sequence").and_then(|x| x.as_array()) {
+            let t = LookupTable::init();
+            for it in sq {
+                let (Some(pn), Some(s), Some(o)) = (it.get(0).and_then(|x| x.as_str()), it.get(1).and_then(|x| x.as_u64()), it.get(2).and_then(|x| x.as_str())) else { continue };
+                let occ = u64::from_str_radix(o, 16).unwrap_or(0);
+                stats.eval();
+                check_slider(&t, piece_from(pn), s as u8, occ)?;
+            }
+            return Ok(());
+        }
+        if let Some(n) = r.get("revisit").and_then(|x| x.get("fillers")).and_then(|x| x.as_u64()) {
+            return sequences_item(&(1, n), stats);
+        }
+    }
     let t = LookupTable::init();
     match part {
         "random" => part_random_queen(bytes, stats),
